@@ -136,17 +136,6 @@ func c03Random(w *bufio.Writer, rng *hx.Rng, trunc bool) {
 		if rng.Chance(1, 2) {
 			b.step("S")
 		}
-		if trunc && r == 0 {
-			// dedicated truncation scenario: quiesce or not, truncate, wait for detection, write again
-			f := files[rng.Intn(len(files))]
-			b.step("T %d", f)
-			b.step("W")
-			b.appendLines(rng, f, rng.Range(1, 4), nstreams)
-			b.step("W")
-			for k := rng.Range(0, 6); k > 0; k-- {
-				b.step("K %d", rng.Intn(6))
-			}
-		}
 	}
 	// a partial line may be pending at the crash
 	var pendingTail []byte
@@ -186,8 +175,35 @@ func c03Random(w *bufio.Writer, rng *hx.Rng, trunc bool) {
 		b.appendLines(rng, f, rng.Range(1, 3), nstreams)
 	}
 	b.step("U")
+	if trunc {
+		// dedicated truncation scenario, in the last run (the guarantee does not cover a kill after a
+		// truncation): events may be in flight; truncate, wait for the detection, write again
+		b.step("W")
+		for k := rng.Range(0, 5); k > 0; k-- {
+			b.step("K %d", rng.Intn(6))
+		}
+		f := files[rng.Intn(len(files))]
+		if rng.Chance(1, 3) {
+			l := b.line(c03Streams[rng.Intn(nstreams)], 3)
+			b.app(f, l[:len(l)/2]) // a partial line is pending at the truncation
+			b.step("W")
+		}
+		b.step("T %d", f)
+		b.step("W")
+		for k := rng.Range(0, 4); k > 0; k-- {
+			b.step("K %d", rng.Intn(6))
+		}
+		b.appendLines(rng, f, rng.Range(1, 4), nstreams)
+		b.step("W")
+		for k := rng.Range(0, 6); k > 0; k-- {
+			b.step("K %d", rng.Intn(6))
+		}
+		if rng.Chance(1, 2) {
+			b.appendLines(rng, f, rng.Range(1, 3), nstreams)
+		}
+	}
 	// run 2: some acks, maybe more data, then idle
-	if rng.Chance(1, 2) {
+	if !trunc && rng.Chance(1, 2) {
 		b.step("W")
 		for k := rng.Range(0, 4); k > 0; k-- {
 			b.step("K %d", rng.Intn(6))
@@ -212,19 +228,126 @@ func c03Random(w *bufio.Writer, rng *hx.Rng, trunc bool) {
 	b.emit(w, mode, rng.Range(1, 3), bufs[rng.Intn(len(bufs))], rng.Range(1, 4), kill)
 }
 
-func genC03Cases(w *bufio.Writer, rng *hx.Rng, tier string) {
-	n, ntr := 22, 3
-	if tier == "thorough" {
-		n, ntr = 260, 40
+// ---- targeted templates
+
+// two streams, both listed in the saved offsets, one lagging with un-acked lines between the two
+// offsets: the restart has to seek to the minimum, and must skip exactly the acked lines
+func c03TwoListed(w *bufio.Writer, rng *hx.Rng, mode, kill string) {
+	b := &c03B{}
+	f := b.newFile()
+	var d []byte
+	pat := []string{"a", "b", "a", "b", "a", "a", "b"}
+	for _, st := range pat {
+		d = append(d, b.line(st, rng.Range(0, 6))...)
 	}
-	for i := 0; i < n; i++ {
+	b.app(f, d)
+	b.step("U")
+	b.step("W")
+	// eligible heads sorted (a, b): ack a1, b2, a3, then a5 a6 (stream a runs ahead), b4 b7 stay in flight
+	for _, k := range []int{0, 1, 0, 0, 0} {
+		b.step("K %d", k)
+	}
+	b.step("S")
+	b.step("X")
+	if rng.Chance(1, 2) {
+		b.app(f, b.line("b", 2))
+	}
+	b.step("U")
+	b.emit(w, mode, 1+rng.Intn(2), 64, 1+rng.Intn(3), kill)
+}
+
+// a small fixed history used for the crash-point sweep (kill after the k-th boundary record)
+func c03Sweep(w *bufio.Writer, mode string, k int, streams []string) {
+	b := &c03B{}
+	f := b.newFile()
+	g := b.newFile()
+	var d []byte
+	for i, st := range streams {
+		d = append(d, b.line(st, i%3)...)
+	}
+	b.app(f, d)
+	b.app(g, b.line(streams[0], 1))
+	b.step("U")
+	b.step("W")
+	b.step("K 0")
+	b.step("K 1")
+	l := b.line(streams[len(streams)-1], 0)
+	b.app(f, l[:7])
+	b.step("K 0")
+	b.app(f, l[7:])
+	b.step("W")
+	b.step("K 2")
+	b.step("K 0")
+	b.step("S")
+	b.app(g, b.line(streams[0], 2))
+	b.step("W")
+	b.step("KA")
+	b.step("S")
+	b.step("X")
+	b.app(f, b.line(streams[0], 0))
+	h := b.rotate(g)
+	b.app(h, b.line(streams[0], 3))
+	b.step("U")
+	b.emit(w, mode, 2, 64, 2, fmt.Sprintf("e%d", k))
+}
+
+// kill inside an offsets save (strace-injected SIGKILL at rename / fsync entry)
+func c03SaveKill(w *bufio.Writer, rng *hx.Rng) {
+	b := &c03B{}
+	nstreams := rng.Range(1, 2)
+	f := b.newFile()
+	b.appendLines(rng, f, rng.Range(2, 5), nstreams)
+	b.step("U")
+	b.step("W")
+	for k := rng.Range(1, 4); k > 0; k-- {
+		b.step("K %d", rng.Intn(3))
+	}
+	b.step("S")
+	b.appendLines(rng, f, rng.Range(1, 3), nstreams)
+	b.step("W")
+	b.step("KA")
+	b.step("S")
+	b.step("X")
+	b.appendLines(rng, f, 1, nstreams)
+	b.step("U")
+	mode := "a"
+	if rng.Chance(1, 2) {
+		mode = "s"
+	}
+	kind := "r"
+	if rng.Chance(1, 2) {
+		kind = "f"
+	}
+	b.emit(w, mode, 1, 64, 1, fmt.Sprintf("%s%d", kind, rng.Range(1, 3)))
+}
+
+func genC03Cases(w *bufio.Writer, rng *hx.Rng, tier string) {
+	nrand, ntr, nsave, sweepStep := 300, 40, 8, 2
+	if tier == "thorough" {
+		nrand, ntr, nsave, sweepStep = 2200, 200, 60, 1
+	}
+	for _, mode := range []string{"a", "s"} {
+		c03TwoListed(w, rng, mode, "x")
+		c03TwoListed(w, rng, mode, "x")
+	}
+	for _, mode := range []string{"a", "s"} {
+		for k := 1 + rng.Intn(sweepStep); k <= 64; k += sweepStep {
+			c03Sweep(w, mode, k, []string{"a", "a", "a"})
+			if tier == "thorough" {
+				c03Sweep(w, mode, k, []string{"a", "b", "a", "b"})
+			}
+		}
+	}
+	for i := 0; i < nsave; i++ {
+		c03SaveKill(w, rng)
+	}
+	for i := 0; i < nrand; i++ {
 		c03Random(w, rng, false)
 	}
 	for i := 0; i < ntr; i++ {
 		c03Random(w, rng, true)
 	}
 }
-
 func init() {
 	gens["C03witness"] = func(w *bufio.Writer, _ *hx.Rng, _ string) {
 		c03Witness(w, "a")
